@@ -5,10 +5,11 @@ LEVEL = 'model_checking'
 META = {
     'technique': 'CBMC symbolic execution of bounded call histories on the real wasi.c descriptor table (real wasiInit + preopen, then open/close/use with symbolic '
                  'descriptor numbers and a symbolic choice of the descriptor-taking call); ghost set of live numbers; CBMC deallocated-object / double-free / NULL checks '
-                 'are the oracle for "never reads or frees released host memory"',
+                 'are the oracle for "never reads or frees released host memory"; plus ONE-STEP checks from every reachable table shape (length x live-mask enumerated, built with the real '
+                 'wasiFileDescriptorAdd): a path_open returns a number that is not live, designates the new file, and leaves every live slot untouched; fd_close invalidates exactly its slot',
     'functions_encoded': ['wasi.c: wasiFileDescriptorAdd/Get/Set/Close, wasiDirectorySet, path_open, fd_close, fd_read, fd_seek, fd_tell, fd_filestat_get, fd_fdstat_get, '
                           'fd_readdir, fd_prestat_get, fd_prestat_dir_name (both ABI name spaces where they differ)'],
-    'bounds': {'history': 'preopen + open + close + one arbitrary call (10 kinds) on an arbitrary number 0..8; open/readdir/close/use; open/open/(close)/open',
+    'bounds': {'one step': 'path_open / fd_close(y) from every table shape: length 4..8 and 11, every live/closed assignment of slots 4.. (quick: lengths 4,5,7); table built with the real wasiFileDescriptorAdd so that capacity follows the real growth policy', 'history': 'preopen + open + close + one arbitrary call (10 kinds) on an arbitrary number 0..8; open/readdir/close/use; open/open/(close)/open',
                'descriptor numbers': '0..8', 'PATH_MAX': 'scaled to 16'},
     'assumptions': STUBS + ['allocation failure out of scope'],
     'out_of_claim': ['histories longer than 4 calls', 'concurrent use of the table'],
@@ -26,4 +27,17 @@ def make_jobs(ctx):
                              name='c13_use_after_close_' + op, timeout=400 if ctx.quick else 1200, sample={'call': op}))
         jobs.append(wasi_job('c13_descriptors.c', 'dir_after_close', witnesses=['end'], defs=['-DOP=%d' % k],
                              name='c13_dir_after_close_' + op, timeout=400 if ctx.quick else 1200, sample={'call': op}))
+    # one step from every reachable table shape (length, which slots >= 4 are live); capacities follow the real growth
+    # policy 1,2,4,7,11, so lengths 4, 7 and 11 are the exactly-full shapes where the next open must grow the table
+    shapes = [(4, 0), (5, 0), (5, 1), (7, 0), (7, 7)] + [(7, mk) for mk in (1, 2, 3, 4, 5, 6)]
+    if not ctx.quick:
+        shapes += [(6, mk) for mk in range(4)] + [(8, mk) for mk in (0, 5, 10, 15)] + [(11, mk) for mk in (0, 1, 0x2A, 0x55, 0x7F, 0x40)]
+    for (tl, mk) in shapes:
+        jobs.append(wasi_job('c13_descriptors.c', 'step_open', witnesses=['end', 'opened'], defs=['-DTL=%d' % tl, '-DTMASK=%d' % mk], unwind=14,
+                             name='c13_step_open_L%d_m%d' % (tl, mk), timeout=400 if ctx.quick else 1200, sample={'table length': tl, 'live mask of slots 4..': mk, 'call': 'path_open'}))
+    for (tl, mk, ys) in ((7, 5, (3, 4, 5, 6, 7, 9)), (5, 1, (0, 4, 5)), (4, 0, (3, 4))):
+        for y in ys:
+            live = y < 4 or (y < tl and (mk >> (y - 4)) & 1)
+            jobs.append(wasi_job('c13_descriptors.c', 'step_close', witnesses=['end', 'closed' if live else 'dead'], defs=['-DTL=%d' % tl, '-DTMASK=%d' % mk, '-DTY=%d' % y], unwind=14,
+                                 name='c13_step_close_L%d_m%d_y%d' % (tl, mk, y), timeout=400 if ctx.quick else 1200, sample={'table length': tl, 'live mask of slots 4..': mk, 'call': 'fd_close(%d)' % y}))
     return jobs
